@@ -232,6 +232,19 @@ def sany(module: str) -> None:
         raise MachineryError(f'SANY failed for {module}:\n{p.stdout[-3000:]}')
 
 
+def run_apalache(module: str, args: Sequence[str], tag: str, timeout: int = 600) -> Dict[str, Any]:
+    """One `apalache-mc check` run on a staged copy of spec/; returns outcome ('NoError' / 'Error' / ...), wall time."""
+    work = subdir(f'apalache-{tag}')
+    _stage_specs(work)
+    t0 = time.time()
+    p = subprocess.run(['apalache-mc', 'check', *args, f'--out-dir={work}/out', f'{module}.tla'], cwd=work, capture_output=True, text=True,
+                       timeout=timeout)
+    m = re.search(r'The outcome is: (\w+)', p.stdout)
+    out = {'outcome': m.group(1) if m else f'rc={p.returncode}', 'wall': round(time.time() - t0, 1), 'args': list(args), 'tail': p.stdout[-1500:]}
+    shutil.rmtree(work / 'out', ignore_errors=True)
+    return out
+
+
 # --------------------------------------------------------------------------
 # findings
 
